@@ -83,4 +83,14 @@ class Deduplication(UnaryOperation):
                 done=False,
                 messages=(f"{current.operation} is count-dependent",),
             )
+        if current.operation.is_order_dependent:
+            # Deduplication keeps the first occurrence of each row, so moving
+            # it upstream changes what an order-dependent operation (e.g. a
+            # custom Reordering) sees and hence the order of the result.
+            return UnaryCommutator(
+                first=None,
+                second=current.operation,
+                done=False,
+                messages=(f"{current.operation} is order-dependent",),
+            )
         return UnaryCommutator(self, current.operation)
